@@ -3,12 +3,13 @@
 # (property text + worktree only); used to look for false alarms of the checks
 import json,sys
 pid=sys.argv[1]
+rnd=sys.argv[2] if len(sys.argv)>2 else ''
 for l in open('/verif/properties.jsonl'):
     p=json.loads(l)
     if p['id']==pid: break
 print(f"""You are helping to evaluate a verification effort for the Go RPC framework TarsCloud/TarsGo by writing realistic *behaviour-preserving changes* (refactors). They are used to find out whether a set of custom static checks raises false alarms on code that is still correct.
 
-You have your own scratch git worktree of the TarsGo repository at /tmp/silent/{pid} (detached HEAD). Work ONLY inside /tmp/silent/{pid} and write your results to /tmp/silent-out/{pid}/. Do not read or touch /repo or /verif or any other directory under /tmp. The sandbox has no network. For every shell command first run:
+You have your own scratch git worktree of the TarsGo repository at /tmp/silent{rnd}/{pid} (detached HEAD). Work ONLY inside /tmp/silent{rnd}/{pid} and write your results to /tmp/silent{rnd}-out/{pid}/. Do not read or touch /repo or /verif or any other directory under /tmp. The sandbox has no network. For every shell command first run:
   export GOFLAGS=-mod=mod GOPROXY=off GOSUMDB=off GOTOOLCHAIN=local; unset GOWORK
 (The tars2go generator is a separate Go module at tars/tools/tars2go inside the worktree.)
 
@@ -18,14 +19,14 @@ The property the checks are about (this is the only specification you get):
   Statement: {p['statement']}
   Quantified over: {p['quantifier']['text']}
 
-Your task: find the code that implements the behaviour this property talks about, and produce FOUR independent changes (s1..s4, each applied separately to a clean tree) to that *non-test source code* such that each change
+{("An earlier round of this exercise already produced the most common edits (if-chain to switch, hoisting a repeated expression into a local, inverting an if into an early return, extracting ONE helper function, count-down loops, renaming locals). Prefer OTHER kinds this time: inline an existing small unexported helper into its callers (and delete it), split a function in two differently or merge two small functions, replace a flag variable by early returns (or the reverse), introduce or remove named result parameters, turn an index loop into a range loop (or back), replace an if/else assignment by a small table or switch expression, wrap a block in a closure that is called immediately, change how a value is passed (pointer vs value, struct vs fields), replace hand-written byte shuffling by encoding/binary (or back), move a lock/unlock pair into a tiny method, reorder switch cases, replace a type assertion chain by a type switch, use errors.New/fmt.Errorf interchangeably, replace x+=1 loops by different but equivalent arithmetic. ") if rnd else ""}Your task: find the code that implements the behaviour this property talks about, and produce FOUR independent changes (s1..s4, each applied separately to a clean tree) to that *non-test source code* such that each change
   (a) PRESERVES the property and the observable behaviour completely: same results, same errors in the same situations, same locking/ordering guarantees. It must be the kind of edit a maintainer makes during ordinary upkeep: e.g. invert an if and return early, turn an if-chain into a switch (or back), hoist a repeated expression into a local variable, split a long function by extracting a helper (or inline a small helper), replace a manual loop by an equivalent one, reorder two independent statements, rename a LOCAL variable or an unexported helper FUNCTION, change an error message text, add logging, replace `defer mu.Unlock()` by explicit unlocks on every path (or the reverse), use a different but equivalent comparison (`len(x) == 0` vs `len(x) < 1`), strengthen a check (reject more clearly-invalid input earlier with an error) — be creative but stay strictly behaviour-preserving with respect to the property.
   (b) touches the code that matters for the property (the functions a checker for this property would have to look at), 5-40 changed lines each; the four changes should differ in kind and in site.
   (c) still compiles (`go build ./...` in the worktree root, and in tars/tools/tars2go if you touch it) and passes the existing test suite (`go test -vet=off -count=1 ./tars/...` from the worktree root; TestKetamaHashAlg_Hash in tars/selector/consistenthash already fails on the clean tree and is ignored; tars/util/rogger tests take ~20 s).
   Do NOT rename exported identifiers, struct fields or files, do not move code between packages, do not edit tests or generated files' semantics, do not add build tags. If you change the tars2go generator's output you must regenerate nothing — simply avoid changing its output.
 
-Deliverables, for k in (1..4), in /tmp/silent-out/{pid}/s<k>/ :
+Deliverables, for k in (1..4), in /tmp/silent{rnd}-out/{pid}/s<k>/ :
   - patch.diff : `git diff` of the change (must apply with `git apply` to a clean checkout of the same commit)
   - notes.md   : 3-8 lines: what was changed and a short argument why behaviour (with respect to the property) is exactly preserved; the build/test commands you ran and their result
 
-When you are done, leave the worktree clean (`git checkout -- . && git clean -fd` inside /tmp/silent/{pid}). Your final message: one line per change. Be economical: read only the code you need.""")
+When you are done, leave the worktree clean (`git checkout -- . && git clean -fd` inside /tmp/silent{rnd}/{pid}). Your final message: one line per change. Be economical: read only the code you need.""")
